@@ -231,6 +231,71 @@ def gen_pair(rng):
     return {"kind": kind, "tol": tol, "d1": d_of(s1, style, rng), "d2": d_of(s2, style, rng)}
 
 
+def arc_pair(rng):
+    """outlines dominated by tilted elliptical arcs (rx != ry, x-axis-rotation != 0), paired with what scaling the end points and
+    radii and keeping rotation and flags gives — the image only for translations and uniform positive scalings"""
+    tol = rng.choice([1e-3, 1e-2, 0.1])
+    x, y = float(rng.randint(-10, 10)), float(rng.randint(-10, 10))
+    rx, ry = float(rng.randint(4, 12)), float(rng.randint(2, 7))
+    if rx == ry:
+        rx += 3.0
+    rot = rng.choice([20, 30, 45, 60, 90])
+    # the first edge is horizontal and the arc runs vertically: the shape the staged search can align under an axis-parallel
+    # scaling (x by the first edge, y by the first edge with a y part)
+    w0 = float(rng.randint(8, 14))
+    if rng.random() < 0.6:
+        s1 = [("M", [x, y]), ("L", [x + w0, y]), ("A", [rx, ry, rot, rng.choice([0, 1]), rng.choice([0, 1]), x + w0, y + 12]),
+              ("L", [x, y + 12])]
+    else:
+        s1 = [("M", [x, y]), ("L", [x + 12, y + 1]), ("A", [rx, ry, rot, rng.choice([0, 1]), rng.choice([0, 1]), x + 20, y + 14]),
+              ("L", [x + 4, y + 18])]
+    if rng.random() < 0.5:
+        s1.append(("A", [ry, rx, rot + 10, 0, 1, x - 3, y + 9]))
+    if rng.random() < 0.7:
+        s1.append(("Z", []))
+    name, T = rng.choice([("nuscale", (2.0, 0.0, 0.0, 0.5, 0.0, 0.0)), ("nuscale", (1.5, 0.0, 0.0, 3.0, 4.0, -2.0)), ("uscale", (2.0, 0.0, 0.0, 2.0, 1.0, 1.0)),
+                          ("translate", (1.0, 0.0, 0.0, 1.0, 7.0, -3.0)), ("mirror", (-1.0, 0.0, 0.0, 1.0, 0.0, 0.0)),
+                          ("rotate", (0.0, 1.0, -1.0, 0.0, 2.0, 2.0))])
+    s2 = map_cmds(s1, T)
+    kind = ("image:" if name in ("translate", "uscale") else "arcimage:") + name
+    return {"kind": kind, "tol": tol, "d1": d_of(s1, 0, rng), "d2": d_of(s2, 0, rng)}
+
+
+def poly_pair(rng):
+    """two polygons / polylines (basic shape objects, geometry in the `points` string): equal, translated, or different"""
+    n = rng.randint(3, 6)
+    pts = [(rng.randint(-20, 20), rng.randint(-20, 20)) for _ in range(n)]
+    k = rng.random()
+    tol = rng.choice([1e-3, 1e-2, 0.1])
+    if k < 0.3:
+        dx, dy = rng.randint(-9, 9), rng.randint(-9, 9)
+        q = [(x + dx, y + dy) for x, y in pts]
+        kind = "polys:translate" if (dx, dy) != (0, 0) else "polys:identical"
+    elif k < 0.4:
+        q, kind = list(pts), "polys:identical"
+    elif k < 0.7:
+        q = list(pts)
+        i = rng.randrange(n)
+        q[i] = (q[i][0] + rng.choice([3, -5, 1]), q[i][1] + rng.choice([0, 2, -4]))
+        kind = "polys:different"
+    else:
+        q = [(rng.randint(-20, 20), rng.randint(-20, 20)) for _ in range(n)]
+        kind = "polys:different"
+    return {"kind": kind, "tol": tol, "tag": rng.choice(["polygon", "polyline"]), "p1": pts, "p2": q}
+
+
+def poly_between(p):
+    affine_between, SVGPath = impl()
+    from picosvg.svg_types import SVGPolygon, SVGPolyline
+    cls = SVGPolygon if p["tag"] == "polygon" else SVGPolyline
+    mk = lambda pts: cls(points=" ".join("%d,%d" % xy for xy in pts))  # noqa: E731
+    p["d1"], p["d2"] = mk(p["p1"]).as_path().d, mk(p["p2"]).as_path().d
+    o, v = common.outcome_of(lambda: affine_between(mk(p["p1"]), mk(p["p2"]), p["tol"]))
+    if o != "ok":
+        return o
+    return "ok None" if v is None else "ok " + " ".join(hexf(x) for x in v)
+
+
 def rect_pair(rng):
     """two basic shapes compared through as_path(): the identity fast path sees their raw H/V/A commands"""
     x, y, w, h = rng.randint(-9, 9), rng.randint(-9, 9), rng.randint(2, 12), rng.randint(2, 12)
@@ -267,7 +332,7 @@ def rect_between(p):
 
 def correspondence(ctx):
     n = 6000 if ctx.thorough() else 900
-    pairs = [gen_pair(ctx.rng) for _ in range(n)]
+    pairs = [arc_pair(ctx.rng) if ctx.rng.random() < 0.08 else gen_pair(ctx.rng) for _ in range(n)]
     ctx._pairs = pairs
     outs = ctx.model(["reuse\tbetween\t%s\t%s\t%s" % (esc(p["d1"]), esc(p["d2"]), hexf(p["tol"])) for p in pairs])
     dis = []
@@ -403,8 +468,10 @@ def judge_pair(p, r, g1, g2):
     if r == "ok None":
         if p["kind"] == "identical":
             return {"kind": "reuse-law", "input": inp, "detail": "identical shapes but no transform reported"}
-        if p["kind"] == "image:translate":
+        if p["kind"] in ("image:translate", "polys:translate"):
             return {"kind": "reuse-law", "input": inp, "detail": "an exact translation of the shape was not found"}
+        if p["kind"] == "polys:identical":
+            return {"kind": "reuse-law", "input": inp, "detail": "identical shapes but no transform reported"}
         return None
     A = [unhex(h) for h in r.split()[1:]]
     why = verify(A, g1, g2, p["tol"])
@@ -422,7 +489,11 @@ def search(ctx, disagreements):
     for p in rects:
         p["impl"] = rect_between(p)
         ctx.count("rects->" + ("none" if p["impl"] == "ok None" else "found" if p["impl"].startswith("ok") else p["impl"]))
-    pairs = pairs + rects
+    polys = [poly_pair(ctx.rng) for _ in range(400 if ctx.thorough() or ctx.escalate else 120)]
+    for p in polys:
+        p["impl"] = poly_between(p)
+        ctx.count(p["kind"] + "->" + ("none" if p["impl"] == "ok None" else "found" if p["impl"].startswith("ok") else p["impl"]))
+    pairs = pairs + rects + polys
     found = []
     if not ctx.driver_ok:
         ctx.count("judge-skipped-no-driver", len(pairs))
